@@ -439,9 +439,14 @@ def _replay():
 
 # ------------------------------------------------------------------ Python layer: Trajectory.superpose around the compiled routine (E2 symnum)
 
+_SEL_AI = {"all": None, "same": [0, 2, 3], "different": [0, 2, 3], "explicit_all": "arange", "permutation": [3, 1, 0, 2], "self": None, "self_sel": [0, 2, 3], "traces": None}
+_SEL_RI = {"all": None, "same": None, "different": [3, 1, 0], "explicit_all": None, "permutation": None, "self": None, "self_sel": None, "traces": None}
+
+
 def superpose_wrapper(sel: str = "same"):
     """the arrays Trajectory.superpose hands to _rmsd.superpose_atom_major and what it does with the result, on symbolic coordinates.
-    sel: all / same (one index list for both) / different (separate lists for target and reference)"""
+    sel: all / same (one index list for both) / different (separate lists for target and reference) / explicit_all (an index ARRAY naming every
+    atom) / permutation / self, self_sel (the reference is the trajectory itself) / traces (cached centring traces present before the call)"""
     import numpy as np
     import sys as _sys
     import types
@@ -471,9 +476,14 @@ def superpose_wrapper(sel: str = "same"):
     _sys.modules["mdtraj._rmsd"] = fake
     old_attr = getattr(mdtraj, "_rmsd", None)
     mdtraj._rmsd = fake
-    ai = {"all": None, "same": [0, 2, 3], "different": [0, 2, 3]}[sel]
-    ri = {"all": None, "same": None, "different": [3, 1, 0]}[sel]
+    ai = _SEL_AI[sel]
+    ai = np.arange(N) if ai == "arange" else ai
+    ri = _SEL_RI[sel]
     frame = 1
+    if sel in ("self", "self_sel"):
+        ref, Y = t, X
+    if sel == "traces":
+        t._rmsd_traces = np.array([1.0, 2.0])
     try:
         out = _tr.Trajectory.superpose(t, ref, frame=frame, atom_indices=ai, ref_atom_indices=ri, parallel=False)
     finally:
@@ -485,9 +495,11 @@ def superpose_wrapper(sel: str = "same"):
     G.add("one_kernel_call", [], z3.BoolVal(len(calls) == 1 and out is t), {})
     if len(calls) == 1:
         c = calls[0]
-        a_idx = list(range(N)) if ai is None else ai
+        a_idx = list(range(N)) if ai is None else [int(i) for i in ai]
         r_idx = a_idx if ri is None else ri
         n = len(a_idx)
+        if sel == "traces":
+            G.add("cached_traces_dropped", [], z3.BoolVal(t._rmsd_traces is None), {})
         G.add("shapes", [], z3.BoolVal(c["self_align"].shape == (F_, n, 3) and c["ref_align"].shape == (1, n, 3) and c["displace"].shape == (F_, N, 3) and c["target_frame"] == 0 and c["parallel"] is False), {})
         if c["self_align"].shape == (F_, n, 3) and c["ref_align"].shape == (1, n, 3) and c["displace"].shape == (F_, N, 3):
             for f in range(F_):
@@ -516,7 +528,8 @@ def superpose_wrapper(sel: str = "same"):
                         G.add(f"result[f{f}.{i}.{k}]", bounds, S.close(t._xyz[f, i, k], tz(X[f, i, k]) - mean[k] + rmean[k], tol, tol), {})
             # the reference is not modified
             for v, w in zip(ref._xyz.flat, Y.flat):
-                G.add("reference_untouched", [], tz(v) == tz(w), {})
+                if ref is not t:
+                    G.add("reference_untouched", [], tz(v) == tz(w), {})
                 break
     r = G.run(_replay_superpose(sel))
     r["wall_s"] = round(time.time() - t0, 2)
@@ -527,12 +540,24 @@ _SUPERPOSE_REPLAY = r'''
 import sys, numpy as np, mdtraj as md, warnings
 warnings.simplefilter("ignore")
 rng = np.random.RandomState(4); bad = 0
-ai, ri = %(ai)r, %(ri)r
+ai, ri, sel = %(ai)r, %(ri)r, %(sel)r
 for trial in range(20):
-    N = 6; t = md.Trajectory((rng.randn(3, N, 3) * 2 + rng.randn(3, 1, 3) * 5).astype(np.float32), None); ref = md.Trajectory((rng.randn(2, N, 3) * 2 + 3).astype(np.float32), None)
+    N = 6 if sel not in ("explicit_all", "permutation") else 4
+    t = md.Trajectory((rng.randn(3, N, 3) * 2 + rng.randn(3, 1, 3) * 5).astype(np.float32), None); ref = md.Trajectory((rng.randn(2, N, 3) * 2 + 3).astype(np.float32), None)
+    if sel in ("self", "self_sel"): ref = t
     ref0 = ref.xyz.copy(); orig = t.xyz.copy()
-    a_idx = list(range(N)) if ai is None else ai; r_idx = a_idx if ri is None else ri
+    if ai == "arange": ai = np.arange(N)
+    a_idx = list(range(N)) if ai is None else list(ai); r_idx = a_idx if ri is None else ri
+    if sel == "traces": t.center_coordinates(); orig = t.xyz.copy()
     t.superpose(ref, frame=1, atom_indices=ai, ref_atom_indices=ri)
+    if sel == "traces":
+        a_, b_ = md.rmsd(t, t, 0, precentered=True), md.rmsd(t, t, 0, precentered=False)
+        if np.abs(a_ - b_).max() > 1e-3: bad += 1; print("after center_coordinates + superpose: rmsd(precentered=True)", a_, "rmsd(precentered=False)", b_)
+    if sel in ("self", "self_sel"):
+        want_c = ref0[1, r_idx].astype(float).mean(0)
+        for f in range(3):
+            c = t.xyz[f, a_idx].astype(float).mean(0)
+            if np.abs(c - want_c).max() > 1e-3: bad += 1; print("frame", f, "centroid of the aligned atoms", c, "reference frame's centroid", want_c)
     for f in range(3):
         a = t.xyz[f, a_idx].astype(float); b = ref0[1, r_idx].astype(float)
         got = ((a - b) ** 2).sum() / len(a_idx)
@@ -540,7 +565,7 @@ for trial in range(20):
         U, S_, Vt = np.linalg.svd(A.T @ B); d = np.sign(np.linalg.det(U @ Vt)); want = (((A @ (U @ np.diag([1, 1, d]) @ Vt)) - B) ** 2).sum() / len(a_idx)
         D0 = np.linalg.norm(orig[f][:, None] - orig[f][None], axis=-1); D1 = np.linalg.norm(t.xyz[f][:, None] - t.xyz[f][None], axis=-1)
         if abs(got - want) > 1e-3 * max(1, want) or np.abs(D0 - D1).max() > 1e-3: bad += 1; print("frame", f, "msd after superpose", got, "optimum", want, "max distance change", np.abs(D0 - D1).max())
-    if not np.array_equal(ref.xyz, ref0): bad += 1; print("reference modified")
+    if sel not in ("self", "self_sel") and not np.array_equal(ref.xyz, ref0): bad += 1; print("reference modified")
 print("deviating:", bad); sys.exit(1 if bad else 0)
 '''
 
@@ -549,9 +574,7 @@ def _replay_superpose(sel):
     def rep(name, vals):
         import subprocess
         import sys
-        ai = {"all": None, "same": [0, 2, 3], "different": [0, 2, 3]}[sel]
-        ri = {"all": None, "same": None, "different": [3, 1, 0]}[sel]
-        script = _SUPERPOSE_REPLAY % dict(ai=ai, ri=ri)
+        script = _SUPERPOSE_REPLAY % dict(ai=_SEL_AI[sel], ri=_SEL_RI[sel], sel=sel)
         with tempfile.NamedTemporaryFile("w", suffix=".py", delete=False) as fh:
             fh.write(script)
         r = subprocess.run([sys.executable, fh.name], capture_output=True, text=True)
